@@ -1,12 +1,11 @@
-//! Schedule driver: runs a generated schedule on a generated world through the
-//! fork/join shim and prints the recorded structure, the access log, the final
-//! state and the sequential reference.
-use brood::{entity, query::{filter, result, Views}, Query};
-use brood_verif_harness::gen_sched::*;
-use brood_verif_harness::sched_support::*;
-use brood::verif::rayon_shim::{self, Event};
+// Schedule driver: runs a generated schedule on a generated world through the
+// fork/join shim and prints the recorded structure, the access log, the final
+// state and the sequential reference.
+
+
 use std::fmt::Write as _;
 use std::io::{BufRead, Write};
+use brood::verif::rayon_shim::{self, Event};
 
 fn dump(w: &mut WS) -> String {
     let mut rows: Vec<String> = Vec::new();
